@@ -8,7 +8,7 @@ from pygen import write_pkg
 from runner import Opts, run_many
 
 PKG = "todopk"
-HEAD = "from __future__ import annotations\nfrom typing import Generic, TypeVar\n\n\ndef _helper():\n    ...\n\n\nclass BaseA:\n    pass\n\n\nclass BaseB:\n    pass\n\n"
+HEAD = "from __future__ import annotations\nfrom typing import Generic, TypeVar\n\n\ndef _helper():\n    ...\n\n\nclass BaseA:\n    pass\n\n\nclass BaseB:\n    pass\n\n\nclass _PrivBase:\n    def helper(self, q: int) -> int:\n        ...\n\n"
 
 
 def marker_kinds(todos: list[str]) -> list[str]:
@@ -105,7 +105,11 @@ def class_src(name, f) -> str:
         return (f"TV_{name} = TypeVar(\"TV_{name}\", covariant=True, bound={bound})\n\n\nclass {name}(Generic[TV_{name}]):\n    ok: int\n\n"
                 f"    def __init__(self, a: int):\n        ...\n\n    def m(self, z: int) -> int:\n        ...\n")
     bases = "(BaseA, BaseB)" if "multi" in f else ""
-    ctor = f - {"multi"}
+    if "@privbase" in f:
+        bases = "(BaseA, BaseB, _PrivBase)"
+    if "@privfirst" in f:
+        bases = "(_PrivBase, BaseA, BaseB)"
+    ctor = f - {"multi", "@privbase", "@privfirst"}
     return (f"class {name}{bases}:\n    ok: int\n\n    def __init__({params_src(ctor, 'self')}):\n        ...\n\n"
             f"    def m(self, z: int) -> int:\n        ...\n")
 
@@ -223,6 +227,11 @@ def main(v: Verdict) -> None:
         else:
             o = dict(base, missing=False, shown=shown_of(d), todos=marker_kinds(d.todos))
         obs.append({"id": "/".join(loc[1:]), "obs": o})
+        if cont == "module-classes" and d is not None:
+            # the members of the class (own and inherited from private bases) carry exactly their own markers
+            for m in d.members:
+                obs.append({"id": f"{loc[1]}/{m.pyname}", "obs": {"cont": "module-classes-member", "shape": {"c": m.kind, "vis": True, "f": []}, "prev": shape["f"],
+                                                                    "missing": False, "shown": shown_of(m), "todos": marker_kinds(m.todos)}})
     bad = judge(v, "C20_Trace", obs)
     by_id = {o["id"]: o for o in obs}
     for b in bad:
